@@ -65,6 +65,10 @@ func (w *walWriter) appendSync(encodedBatch []byte) (walAppendResult, error) {
 	)
 	waitGroup.Add(1)
 
+	if err := verifhook.Fail("walstore:append:before-write"); err != nil {
+		abortErr := w.abortUncommitted()
+		return walAppendResult{}, errors.Join(fmt.Errorf("Flush: write WAL record: %w", err), abortErr)
+	}
 	logicalOffset, err := writer.WriteRecord(encodedBatch, pebblewal.SyncOptions{
 		Done: &waitGroup,
 		Err:  &syncErr,
@@ -75,6 +79,10 @@ func (w *walWriter) appendSync(encodedBatch []byte) (walAppendResult, error) {
 	}
 
 	waitGroup.Wait()
+	if syncErr == nil {
+		// the record is written and synced; a harness may report the sync as failed
+		syncErr = verifhook.Fail("walstore:append:after-sync")
+	}
 	if syncErr != nil {
 		abortErr := w.abortUncommitted()
 		return walAppendResult{}, errors.Join(fmt.Errorf("Flush: sync WAL record: %w", syncErr), abortErr)
@@ -149,6 +157,9 @@ func (w *walWriter) closeCurrent() error {
 	}
 
 	_, err := w.writer.Close()
+	if err == nil {
+		err = verifhook.Fail("walstore:writer:after-close")
+	}
 	w.writer = nil
 	w.currentWALNum = 0
 	w.currentWALSyncedOffset = 0
@@ -202,6 +213,9 @@ func repairWALTail(walPath string, syncedOffset int64) (err error) {
 		syncedOffset = info.Size()
 	}
 
+	if err := verifhook.Fail("walstore:repair:before-truncate"); err != nil {
+		return fmt.Errorf("Flush: truncate WAL to last synced offset: %w", err)
+	}
 	if err := file.Truncate(syncedOffset); err != nil {
 		return fmt.Errorf("Flush: truncate WAL to last synced offset: %w", err)
 	}
